@@ -55,11 +55,19 @@ def _run(chk, units):
         s = saved(u, f, exp, e, c)
         s.pop("numeric", None)
         return s
+
+    def labels(t, acc):
+        acc.add(t["n"])
+        for ch in t["ch"]:
+            labels(ch, acc)
+        return acc
+    c03.EXTRA_SIG = lambda u, f, tree: {"empty_domain": f["ast"]["op"] == "forall" and f["ast"]["ty"] not in labels(tree, set())}
     c03.sig_for = sig_for
     try:
         c03.run(chk, units)
     finally:
         c03.sig_for = saved
+        c03.EXTRA_SIG = None
 
 
 def replay(path):
